@@ -2,13 +2,16 @@
 # seedall.sh [dir-with-seeds] : for every <dir>/<ID>/<x>/patch.diff run ALL registered checks on a scratch copy and
 # print which properties report a violation. Evidence of the real tree is not touched.
 root="${1:-/tmp/seed_out}"
+/verif/run.sh setup >/dev/null 2>&1
+bin=$(mktemp /tmp/cloakcheck.XXXXXX); cp /verif/bin/cloakcheck "$bin"; chmod +x "$bin"
+trap 'rm -f "$bin"' EXIT
 for pd in "$root"/C*/*/patch.diff; do
   [ -f "$pd" ] || continue
   name=$(echo "$pd" | sed -E 's#.*/(C[0-9]+)/([^/]+)/patch.diff#\1/\2#')
   d=$(mktemp -d /tmp/seedchk.XXXXXX)
   rsync -a --exclude .git /repo/ "$d"/
   if ! (cd "$d" && git apply --whitespace=nowarn "$pd" 2>/dev/null); then echo "$name PATCH-DOES-NOT-APPLY"; rm -rf "$d"; continue; fi
-  out=$(CLOAKCHECK_EVIDENCE_DIR="$d/ev" CLOAK_REPO="$d" /verif/run.sh all quick 2>&1)
+  out=$(CLOAKCHECK_EVIDENCE_DIR="$d/ev" "$bin" -prop all -tier quick -repo "$d" -verif /verif 2>&1)
   hits=$(echo "$out" | grep -E '^(VIOLATION|UNDECIDED) +C' | awk '{print $2}' | sort -u | tr '\n' ' ')
   echo "$name => ${hits:-MISSED}"
   rm -rf "$d"
